@@ -56,6 +56,24 @@ def cases(rng, tier):
     for v in specials:
         for fl in (0x40, 0x50):
             cs.append(Case(23, [2, fl], [v], "aspath.special"))
+    # segments whose AS data falls 1..5 octets short of (or exceeds by 1..3) what the count announces, in the first and in a later
+    # segment; and, for every attribute, values one to four octets off each length rule
+    for n in (1, 2, 3, 64):
+        full = seg(2, list(range(1, n + 1)))
+        for short in (1, 2, 3, 4, 5):
+            if short < len(full) - 2:
+                for prefix in (b"", seg(1, [9, 8]), seg(2, [5])):
+                    for fl in (0x40, 0x50):
+                        cs.append(Case(23, [2, fl], [prefix + full[:-short]], "aspath.segment-short"))
+        for extra in (1, 2, 3):
+            cs.append(Case(23, [2, 0x40], [full + bytes(extra)], "aspath.trailing"))
+    rules = {1: [1], 3: [4], 4: [4], 5: [4], 6: [0], 7: [8], 8: [4, 8, 12], 9: [4], 10: [4, 8], 32: [12, 24]}
+    for code, lens in rules.items():
+        for ln in lens:
+            for d in (-4, -3, -2, -1, 1, 2, 3, 4):
+                if ln + d >= 0:
+                    cs.append(Case(23, [code, {1: 0x40, 3: 0x40, 4: 0x80, 5: 0x40, 6: 0x40, 7: 0xC0, 8: 0xC0, 9: 0x80, 10: 0x80, 32: 0xC0}[code]],
+                                   [gen.rbytes(rng, ln + d)], "length-off-by"))
     return cs
 
 
